@@ -138,9 +138,10 @@ static bool is_registry_lock(const void* l)
   return true;
 }
 
+static thread_local bool g_quiet = false; // inside an extra observation: not a scheduling point
 static void sync(Pending p)
 {
-  if (g_free_run || g_me < 0) {
+  if (g_free_run || g_me < 0 || g_quiet) {
     return;
   }
   std::unique_lock<std::mutex> lk(g_m);
@@ -292,11 +293,31 @@ static void worker_main(int t, int rounds)
           uintptr_t base = sb.get_sandbox_impl()->base;
           int* p = RS::get_unsandboxed_pointer_no_ctx<int*>(8, reinterpret_cast<const void*>(base + 16));
           res = "?";
-          for (int i = 0; i < g_n; i++) {
-            if (g_sb[i] && g_sb[i]->get_sandbox_impl()->base != 0 &&
-                reinterpret_cast<uintptr_t>(p) == g_sb[i]->get_sandbox_impl()->base + 8) {
-              res = tname(i);
+          if (reinterpret_cast<uintptr_t>(p) == base + 8) {
+            res = tname(t); // (a destroyed instance of another thread may have had the same base earlier)
+          } else {
+            for (int i = 0; i < g_n; i++) {
+              if (g_sb[i] && g_sb[i]->get_sandbox_impl()->base != 0 &&
+                  reinterpret_cast<uintptr_t>(p) == g_sb[i]->get_sandbox_impl()->base + 8) {
+                res = tname(i);
+              }
             }
+          }
+          // the same lookup for a FUNCTION pointer: on this backend its translation is an entry of
+          // the table of the instance the lookup found (an instance-specific answer even when two
+          // instances have had the same base address, one after the other)
+          using FnT = int (*)(int);
+          g_quiet = true; // (runs within this step: the Model's lookup is one walk of the list)
+          FnT fp = RS::get_unsandboxed_pointer_no_ctx<FnT>(1, reinterpret_cast<const void*>(base + 16));
+          g_quiet = false;
+          std::string fres = "?";
+          for (int i = 0; i < g_n; i++) {
+            if (g_sb[i] && reinterpret_cast<const void*>(fp) == static_cast<const void*>(&g_sb[i]->get_sandbox_impl()->table[1])) {
+              fres = tname(i);
+            }
+          }
+          if (fres != res) {
+            res = "fn:" + fres + "/data:" + res;
           }
 #endif
         } else {
@@ -341,6 +362,7 @@ int main(int argc, char** argv)
   make_libs(std::make_integer_sequence<int, MAXT>{});
   detail::verif_event_hook = list_hook;
 #if !defined(BK_NOOP)
+  Sbx::keep_base_after_destroy = true; // a destroyed instance still "recognises" its old range
   Sbx::event_hook = backend_hook;
 #endif
   std::string line;
